@@ -860,6 +860,7 @@ def _concretise(e, in_dunder=False):
     ctx = _CTX
     if ctx is None:
         raise EngineError(f'concretisation of a symbolic expression outside an exploration: {e}')
+    ctx.last_was_stub = False
     if ctx.abort_reason is not None:
         return 0
     site = _site()
